@@ -38,7 +38,7 @@ NAMES = [f"{n}{s}" for s in ("", "Info", "List", "2") for n in S.PLAIN_NAMES]
 # nillable stays off: an element that is nil in one sample and has a value in another is generated as `None | <empty class> | value`
 # and the value is lost (recorded finding xml-nil-in-one-sample-value-in-another)
 XOPTS = S.Opts(global_names=True, name_pool=NAMES, builtins=sorted(S.CANONICAL), simple_types=False, extension=False, wildcards=False,
-               defaults=False, fixed=False, anon_root=True, mixed=True, nillable=False)
+               defaults=False, fixed=False, anon_root=True, mixed=True, mixed_odds=5, nillable=False)
 STRICT = dict(fail_on_unknown_properties=True, fail_on_unknown_attributes=True, fail_on_converter_warnings=True)
 
 
@@ -77,7 +77,41 @@ def xml_cases(draw):
         for el in etree.fromstring(d.encode()).iter():
             (with_children if len(el) or el.attrib else empty if not (el.text or "").strip() else set()).add(el.tag)
     assume(not (with_children & empty))
-    return {"family": "xml", "docs": docs, "hidden": S.render_xsd(spec), "ordered": not repeated_groups(spec), "options": draw(gen_options())}
+    # element order is compared for a single sample, or when the model leaves the greedy sample-by-sample merge of field orders no
+    # choice (recorded finding xml-field-order-merged-greedily otherwise)
+    ordered = not repeated_groups(spec) and (len(docs) == 1 or order_reproducible(spec))
+    return {"family": "xml", "docs": docs, "hidden": S.render_xsd(spec), "ordered": ordered, "options": draw(gen_options())}
+
+
+def order_reproducible(spec):
+    """Every element is required and occurs once; the only alternatives are choices between sequences of such elements."""
+    ok = [True]
+
+    def walk(p, in_choice=False):
+        if p["k"] == "element":
+            if p.get("min", 1) != 1 or p.get("max", 1) != 1:
+                ok[0] = False
+            t = p["type"].get("anon")
+            if t and t["k"] == "complex":
+                if t.get("mixed"):
+                    ok[0] = False
+                if t.get("content"):
+                    walk(t["content"])
+            return
+        if p["k"] not in ("sequence", "choice") or p.get("min", 1) != 1 or p.get("max", 1) != 1:
+            ok[0] = False
+            return
+        if p["k"] == "choice" and not all(i["k"] == "sequence" for i in p["items"]):
+            ok[0] = False
+        for it in p["items"]:
+            walk(it)
+    for t in S.all_types(spec):
+        if t["k"] == "complex":
+            if t.get("mixed"):
+                ok[0] = False
+            if t.get("content"):
+                walk(t["content"])
+    return ok[0]
 
 
 def repeated_groups(spec):
